@@ -124,13 +124,28 @@ example : pieceWith (callFn 5 (initBlocks e0)) [] (registerParent (registerParen
 example : pieceWith (callFn 5 (initBlocks e0)) [] (registerParent (registerParent (initBlocks e2) e1) e0)
     (some ⟨"c2", ⟨"b", false, false, []⟩⟩) true [] (.superCall 2) = .error .undefined := by decide
 
-/-- `self.b()` renders the head of `blocks[b]` — i.e. exactly what an unscoped, non-required placeholder for `b`
-    renders — with the context variables and without the loop variables; an unknown name is undefined. -/
-theorem self_most_derived (callee : Inherit.Callee) (vars loc : Vars) (B : Blocks) (cur : Option BRef) (b : Name)
-    (body : List Piece) (top : BRef) (more : List BRef) (h : stackOf B b = top :: more) :
-    pieceWith callee vars B cur true loc (.selfCall b) = callee vars top
-    ∧ pieceWith callee vars B cur true loc (.selfCall b) = pieceWith callee vars B cur true loc (.block b false false body) := by
-  simp [pieceWith, h]
+/-- `self.b()` renders the body of the most-derived definition of `b` along the chain (first definer, most-derived
+    first) as that block function — with the context variables, without the loop variables, output live —, i.e. exactly
+    what an unscoped, non-required placeholder for `b` renders; a name nobody defines is undefined. -/
+theorem self_most_derived (chain : List Tpl) (B : Blocks) (n : Nat) (vars loc : Vars) (cur : Option BRef) (b : Name)
+    (body : List Piece) (hB : ∀ b, stackOf B b = refs chain b) :
+    pieceWith (callFn (n + 1) B) vars B cur true loc (.selfCall b)
+      = (match chain.filterMap (fun t => (findBlock b t.body).map (BRef.mk t.name)) with
+        | [] => .error .undefined
+        | r :: _ => listWith (callFn n B) vars B (some r) true [] r.decl.body)
+    ∧ (refs chain b ≠ [] →
+        pieceWith (callFn (n + 1) B) vars B cur true loc (.selfCall b)
+          = pieceWith (callFn (n + 1) B) vars B cur true loc (.block b false false body)) := by
+  have hr : refs chain b = chain.filterMap (fun t => (findBlock b t.body).map (BRef.mk t.name)) := rfl
+  rw [← hr]
+  cases h : refs chain b with
+  | nil => simp [pieceWith, hB b, h]
+  | cons r more => simp [pieceWith, hB b, h, callFn]
+
+example : (∀ b, stackOf (registerParent (registerParent (initBlocks e2) e1) e0) b = refs [e2, e1, e0] b) :=
+  fun b => stackOf_final eL eVars e2 [e1, e0] e_chain b
+example : pieceWith (callFn 5 (registerParent (registerParent (initBlocks e2) e1) e0)) eVars
+    (registerParent (registerParent (initBlocks e2) e1) e0) none true [] (.selfCall "b") = .ok "B2<B0>".toList := by decide
 
 example : stackOf (registerParent (registerParent (initBlocks e2) e1) e0) "b"
     = ⟨"c2", ⟨"b", false, false, [tx "B2<", .superCall 1, tx ">"]⟩⟩ :: [⟨"c1", ⟨"b", false, false, [tx "B1(", .superCall 0, tx ")"]⟩⟩,
